@@ -508,6 +508,10 @@ func (i indexAccessor) Get(container Object) Object {
 }
 
 func setListValue(list *List, value Object, index int64) Object {
+	if index < 0 {
+		return newError("a list index cannot be negative: %d", index)
+	}
+
 	if int64(len(list.Value)) > index {
 		list.Value[index] = value
 
